@@ -5,7 +5,7 @@ from __future__ import annotations
 from ..analyses.own import CONV_MUTATORS, RECORD_FIELDS, Own, in_scope, param_mutations
 from ..report import Cx, Ob, describe, obligation
 from ..rules import LISTS, MUTATORS, TABLES, bind_args, where
-from ..terms import callee_name, op, show, subterms
+from ..terms import callee_name, is_const, op, show, subterms
 
 describe(
     "C10",
@@ -70,6 +70,8 @@ def d1(cx: Cx, ob: Ob) -> None:
 
 @obligation("C10-D2", "OWN: no borrowed or shallow-copied Record is captured by a converter other than its owner (Converter(...) argument, add_record)", floor=6)
 def d2(cx: Cx, ob: Ob) -> None:
+    if ob.id == "C10-D2":
+        deep_copies_are_deep(cx, ob)
     for fn, ps in scope(cx, ob):
         o = Own(cx, fn, ps)
         ob.site(f"{fn.where} {fn.qualname}", f"converter inputs {ps}")
@@ -92,7 +94,7 @@ def d2(cx: Cx, ob: Ob) -> None:
                         witness=f"{show(c)[:100]}",
                         detail=f"capture-ctor:{tg[1][0]}",
                     )
-                if op(c[1]) == "attr" and callee_name(c) == "add_record" and c[2]:
+                if op(c[1]) == "attr" and callee_name(c) == "add_record" and c[2] and _add_record_keeps_argument(cx):
                     owner = o.tag(c[1][1])
                     rec = o.tag(c[2][0])
                     if rec is not None and rec[0] in ("B", "S") and owner is not None and not (owner[0] == "CB" and owner[1] == rec[1]):
@@ -107,6 +109,28 @@ def d2(cx: Cx, ob: Ob) -> None:
                             witness=f"{show(c)[:100]}",
                             detail=f"capture-add:{rec[0]}",
                         )
+
+
+_KEEPS: dict = {}
+
+
+def _add_record_keeps_argument(cx: Cx) -> bool:
+    """Does Converter.add_record put the Record OBJECT it is given into self.records (True on the pinned tree), or
+    a deep copy it makes itself?  (_merge only reads the incoming record.)"""
+    key = id(cx.model)
+    if key in _KEEPS:
+        return _KEEPS[key]
+    fn = cx.model.functions.get("curies.api.Converter.add_record")
+    keeps = True
+    if fn is not None and len(fn.params) > 1:
+        s = cx.summary(fn)
+        me = ("param", fn.self_name)
+        rec = ("param", fn.params[1].name)
+        apps = [ev.a[2][-1] for ev, _ in s.walk() if ev.kind == "expr" and op(ev.a) == "call" and op(ev.a[1]) == "attr" and ev.a[1][2] in ("append", "insert") and ev.a[1][1] == ("attr", me, "records") and ev.a[2]]
+        if apps:
+            keeps = not all(op(a) == "call" and ((callee_name(a) == "model_copy" and is_const(dict(a[3]).get("deep"), True) and a[1][1] == rec) or (a[1] == ("ext", "copy.deepcopy") and a[2][:1] == (rec,))) for a in apps)
+    _KEEPS[key] = keeps
+    return keeps
 
 
 @obligation("C10-D3", "OWN: no mutator of Converter is called on, and no store is made through, a converter parameter", floor=6)
@@ -184,11 +208,51 @@ def shallow_converter_copies(cx: Cx, ob: Ob) -> None:
                         )
 
 
+def deep_copies_are_deep(cx: Cx, ob: Ob) -> None:
+    """Every derivation isolates its result with ``record.model_copy(deep=True)`` / ``copy.deepcopy``: that is a
+    fresh record only as long as Record does not define a copy hook of its own that hands the synonym LISTS over
+    (``dict(self)``, ``self.__dict__``, attribute reads are shallow; ``self.model_dump()`` copies containers)."""
+    ci = cx.model.classes.get("curies.api.Record")
+    if ci is None:
+        return
+    for hook in ("__deepcopy__", "__copy__", "model_copy", "__reduce__", "__reduce_ex__"):
+        m = ci.methods.get(hook)
+        if m is None or hook == "__copy__":
+            continue
+        s = cx.summary(m)
+        me = ("param", m.self_name) if m.self_name else None
+        for t, ctx in s.returns():
+            shallow = None
+            for x in subterms(t):
+                if op(x) == "call" and x[1] == ("builtin", "dict") and x[2][:1] == (me,):
+                    shallow = "dict(self)"
+                if op(x) == "call" and x[1] == ("builtin", "vars") and x[2][:1] == (me,):
+                    shallow = "vars(self)"
+                if op(x) == "attr" and x[1] == me and x[2] in ("__dict__", *LISTS_):
+                    par_ok = any(op(y) == "call" and (y[1] in (("builtin", "list"), ("builtin", "sorted"), ("ext", "copy.deepcopy"), ("ext", "copy.copy"))) and x in y[2] for y in subterms(t))
+                    if not par_ok:
+                        shallow = f"self.{x[2]}"
+            if shallow:
+                ob.violate(
+                    m.qualname,
+                    m.where,
+                    f"Record.{hook} builds the copy from {shallow}, which hands over the synonym LIST objects themselves: every `model_copy(deep=True)` / deepcopy in chain, get_subconverter, the remappings and rewire now returns records that share their lists with the input, and a later merge into the result edits the input converter's records",
+                    witness="sub = c.get_subconverter(['a']); sub.add_prefix('a', <a's URI prefix>, prefix_synonyms=['x'], merge=True); c's record now lists 'x' but c.expand('x:1') is None",
+                    detail=f"shallow-copy-hook:{hook}",
+                )
+            else:
+                ob.site(m.where, f"Record.{hook} builds the copy from copied containers")
+
+
+LISTS_ = ("prefix_synonyms", "uri_prefix_synonyms")
+
+
 def check_no_aliasing(cx: Cx, ob: Ob) -> None:
     """D1-D3 together, for properties that need 'no converter shares records with another'."""
     d1(cx, ob)
     d2(cx, ob)
     d3(cx, ob)
+    deep_copies_are_deep(cx, ob)
 
 
 @obligation("C10-D4", "no derivation mutates an argument object: no store into, deletion from or mutator call on a parameter (mappings, sequences or converters handed in may alias the caller's - even the input converter's own - tables)", floor=6)
